@@ -205,7 +205,17 @@ def rule_helpers(ctx, rep):
             if not pcs:
                 continue
             rep.touch(f)
-            must = lockset.compute(f)
+            # helpers that block signals on behalf of their caller (all their returns are reached with the mask raised, the set filled by
+            # sigfillset there) count as the blocking step
+            summ = {}
+            for h in m.defined():
+                if h is f or not any(i.op == "call" and i.callee == "pthread_sigmask" for i in h.all_insts()):
+                    continue
+                mh = lockset.compute(h)
+                rets = [r for r in h.rets() if r.id in mh]
+                if rets and all(lockset.SIGBLOCKED in mh[r.id] for r in rets) and any(i.op == "call" and i.callee == "sigfillset" for i in h.all_insts()):
+                    summ[h.name] = ((lockset.SIGBLOCKED,), ())
+            must = lockset.compute(f, summaries=summ)
             for c in pcs:
                 n += 1
                 inst = "%s.%s@%d" % (lib, f.srcname, c.line)
@@ -214,6 +224,8 @@ def rule_helpers(ctx, rep):
                                  "a handler's rcu_read_lock() section on it is not waited for by any grace period", [c.where()]):
                     continue
                 blk = [b for b in f.all_insts() if b.op == "call" and b.callee == "pthread_sigmask" and ir.const_of(f, b.args[0]) == 0 and f.dominates(b, c)]
+                if not blk and any(x.op == "call" and x.callee in summ and f.dominates(x, c) for x in f.all_insts()):
+                    rep.ok("C19.helpers", inst + ".full-set", "signals are blocked by a helper that fills the set with sigfillset()")
                 for b in blk[-1:]:
                     ap = b.d["aps"][1]
                     fills = [x for x in f.calls("sigfillset") if ap is not None and x.d["aps"][0] and x.d["aps"][0]["base"] == ap["base"] and f.dominates(x, b)]
